@@ -225,6 +225,8 @@ func c01Decos(base *XElem, thorough bool) []Deco {
 					ds = append(ds, Deco{Kind: 't', El: i, Pos: pos, Value: tv, CData: true})
 				}
 			}
+			// one text run written as plain text and a CDATA section side by side (either order): the value is the whole run
+			ds = append(ds, Deco{Kind: 't', El: i, Pos: pos, Value: "x1 <2", Split: 2}, Deco{Kind: 't', El: i, Pos: pos, Value: "4&5", Split: -2})
 			ds = append(ds, Deco{Kind: 'c', El: i, Pos: pos, Value: " c "})
 			if pos == 0 || thorough {
 				ds = append(ds, Deco{Kind: 'p', El: i, Pos: pos, Value: "do it"})
